@@ -29,7 +29,9 @@ TRUSTED = [
     "corpus entries nested 200+ levels is checked by the oracle only (ok or ValueError), not compared with the model",
 ]
 ASSUMPTIONS = [
-    "annotations are built from schema-valid tags (str(tag) == short_tag); nesting depth <= 4; query depth <= 4",
+    "annotations are built from 37 spellings: schema tags, value-taking tags (Label/Def/ID) whose value is spelled "
+    "like a schema term, extensions, and extensions that are schema terms (not identified: no schema path, short "
+    "form = text); nesting depth <= 4; query depth <= 4",
     "the independent set-semantics evaluator, the metamorphic laws, repeated-search / purity / batch-interface "
     "checks run on the implementation only (testing)",
     "C15_sibling_order_invariant / _search assume the group identities of the annotation are pairwise different "
@@ -40,8 +42,9 @@ ASSUMPTIONS = [
 
 # ---------------------------------------------------------------- vocabulary (independent of hed-python)
 
-SHORTS = ["Red", "Blue", "Green", "Event", "Sensory-event", "Agent-action", "Item", "Object", "Label"]
-# text as written in an annotation -> (short name, value or None)
+SHORTS = ["Red", "Blue", "Green", "Event", "Sensory-event", "Agent-action", "Item", "Object", "Label", "Def", "ID",
+          "Red-color"]
+# text as written in an annotation -> (schema node (short name) or None when the tag is not identified, value/extension)
 FORMS = {
     "Red": ("Red", None), "red": ("Red", None), "Blue": ("Blue", None), "Green": ("Green", None),
     "Event": ("Event", None), "Sensory-event": ("Sensory-event", None), "Event/Sensory-event": ("Sensory-event", None),
@@ -49,8 +52,28 @@ FORMS = {
     "Item/Object": ("Object", None), "Label/abc": ("Label", "abc"), "Label/ABC": ("Label", "ABC"),
     "Label/abd": ("Label", "abd"),
 }
-TAG_POOL = ["Red", "Red", "Blue", "Blue", "Green", "Event", "Sensory-event", "Event/Sensory-event", "Agent-action",
-            "Item", "Object", "Item/Object", "Label/abc", "Label/ABC", "Label/abd", "red"]
+# value-taking tags whose VALUE is spelled like a schema term / a parent term of another tag / a queried word
+VALUE_FORMS = {
+    "Label/Red": ("Label", "Red"), "Label/red": ("Label", "red"), "label/Red": ("Label", "Red"),
+    "Label/Event": ("Label", "Event"), "Label/Color": ("Label", "Color"), "Label/Item": ("Label", "Item"),
+    "Label/Blue": ("Label", "Blue"), "Def/Red": ("Def", "Red"), "Def/Sensory-event": ("Def", "Sensory-event"),
+    "Def/Face": ("Def", "Face"), "ID/Red": ("ID", "Red"), "ID/Object": ("ID", "Object"),
+    "Label/a/Red": ("Label", "a/Red"), "Label/Blue/Green": ("Label", "Blue/Green"),
+}
+# extensions (the extension words are not schema terms) -- the tag is identified by its schema node
+EXT_FORMS = {
+    "Item/Redish": ("Item", "Redish"), "Object/Myobj": ("Object", "Myobj"), "Item/Object/Myobj": ("Object", "Myobj"),
+    "Red-color/Crimsonish": ("Red-color", "Crimsonish"), "Sensory-event/Mysens": ("Sensory-event", "Mysens"),
+    "Item/Redish/Blueish": ("Item", "Redish/Blueish"),
+}
+# an "extension" that is itself a schema term: the tag is not identified (no schema path at all)
+UNID_FORMS = {"Red-color/Event": (None, None), "Object/Red": (None, None), "Agent-action/Item": (None, None)}
+FORMS.update(VALUE_FORMS)
+FORMS.update(EXT_FORMS)
+FORMS.update(UNID_FORMS)
+TAG_POOL = (["Red", "Red", "Blue", "Blue", "Green", "Event", "Sensory-event", "Event/Sensory-event", "Agent-action",
+             "Item", "Object", "Item/Object", "Label/abc", "Label/ABC", "Label/abd", "red"] * 2
+            + list(VALUE_FORMS) + list(EXT_FORMS) + list(UNID_FORMS))
 _paths = None
 
 
@@ -77,15 +100,33 @@ def schema_paths():
         for s in SHORTS:
             if s not in out:
                 raise RuntimeError("schema lacks " + s)
+        names = {n.casefold() for n in out}
+        takes_value = set()
+        for par in sch.iter("node"):
+            if any(ch.find("name").text == "#" for ch in par.findall("node")):
+                takes_value.add(par.find("name").text)
+        # fail closed: the hand-written table of spellings must agree with the schema file
+        for text, (node, suffix) in VALUE_FORMS.items():
+            if node not in takes_value:
+                raise RuntimeError(f"{text}: {node} takes no value in the schema")
+        for text, (node, suffix) in EXT_FORMS.items():
+            if node in takes_value or any(w.casefold() in names for w in suffix.split("/")):
+                raise RuntimeError(f"{text}: not a plain extension")
+        for text in UNID_FORMS:
+            head, _, rest = text.partition("/")
+            if head not in out or head in takes_value or not any(w.casefold() in names for w in rest.split("/")):
+                raise RuntimeError(f"{text}: expected an extension that is a schema term")
         _paths = out
     return _paths
 
 
 def tag_info(text):
     """(terms, short_tag, org_tag) of an annotation tag, from the harness' own table."""
-    short, val = FORMS[text]
-    terms = [p.casefold() for p in schema_paths()[short]]
-    return terms, short + ("/" + val if val is not None else ""), text
+    node, val = FORMS[text]
+    if node is None:            # not identified: no schema path; the short form is the text itself
+        return [], text, text
+    terms = [p.casefold() for p in schema_paths()[node]]      # the schema NODE only, never the value/extension
+    return terms, node + ("/" + val if val is not None else ""), text
 
 
 # ---------------------------------------------------------------- annotations
@@ -165,10 +206,15 @@ def has_equal_groups(children):
 #      ("and", sep, a, b) ("or", a, b) ("not", a) ("paren", a) ("desc", a) ("ex", a) ("exnone", a) ("exopt", a, b)
 
 BARE = ["Event", "Sensory-event", "Agent-action", "Item", "Object", "Red", "Blue", "Green", "Color", "Label",
-        "Property", "CSS-color", "Red-color", "sensory-event", "RED", "Informational-property", "Nothing", "Action"]
-QUOTED = ["Red", "Label/abc", "Event", "Sensory-event", "Object", "Label", "Blue", "label/ABD", "Item"]
-SLASH = ["Label/abc", "Label/ABC", "Label/abd", "Item/Object", "Label/ab"]
-STAR = ["Sens", "R", "Label/a", "Label/", "Ob", "", "Eve", "Agent-", "B", "red"]
+        "Property", "CSS-color", "Red-color", "sensory-event", "RED", "Informational-property", "Nothing", "Action",
+        "Def", "ID", "Face", "Redish", "Myobj", "Crimsonish", "Mysens", "Blueish", "a", "abc", "Organizational-property",
+        "Red", "Event", "Item", "Object", "Blue", "Color"]
+QUOTED = ["Red", "Label/abc", "Event", "Sensory-event", "Object", "Label", "Blue", "label/ABD", "Item",
+          "Label/Red", "Def/Red", "Label/a/Red", "Item/Redish", "Object/Myobj", "Red-color/Event", "ID/Red", "Object/Red"]
+SLASH = ["Label/abc", "Label/ABC", "Label/abd", "Item/Object", "Label/ab",
+         "Label/Red", "Def/Face", "Label/a/Red", "Object/Red", "Item/Redish", "Label/Blue/Green"]
+STAR = ["Sens", "R", "Label/a", "Label/", "Ob", "", "Eve", "Agent-", "B", "red",
+        "Lab", "Label/R", "Def/", "ID/R", "Label/a/", "Item/R", "Obj", "Red-color/", "I"]
 
 
 def gen_atom(rng, allow_wild=True):
@@ -615,12 +661,34 @@ def run(tier, seed, res, model_ok=True, proof_ok=True):
     rng = random.Random(seed)
     schema_paths()
     quick = tier == "quick"
-    n_cases = 2000 if quick else 25000
+    n_cases = 1500 if quick else 25000
     n_soup = 5000 if quick else 50000
     if not proof_ok:
         n_cases *= 2
         n_soup *= 2
     cases = [make_case(rng, fixed=F1_WITNESS)]
+    # a value is not a node of the schema path (regressions)
+    for ann, A, B, Cq in [
+            ([("T", "Label/Red")], ("term", "Red"), ("quoted", "Label/Red"), ("star", "Lab")),
+            ([("T", "Def/Face")], ("term", "Face"), ("term", "Def"), ("star", "Def/")),
+            ([("T", "Sensory-event"), ("G", [("T", "Label/Item"), ("T", "Blue")])], ("term", "Item"), ("term", "Object"),
+             ("term", "Label")),
+            ([("T", "Label/Red"), ("T", "Blue")], ("term", "Red"), ("term", "Blue"), ("exact", "Label/Red")),
+            ([("T", "Label/a/Red"), ("T", "Item/Redish")], ("term", "Red"), ("term", "Redish"), ("star", "Label/a/")),
+            ([("T", "Red-color/Event")], ("term", "Event"), ("term", "Red-color"), ("quoted", "Red-color/Event"))]:
+        cases.append(make_case(rng, fixed={"ann": ann, "shuf": shuffle_tree(rng, ann), "A": A, "B": B, "C": Cq}))
+    # exhaustive small layer: every spelling of a tag (alone, or alone in a group) x every atomic query
+    atoms = ([("term", t) for t in sorted(set(BARE))] + [("quoted", t) for t in QUOTED] + [("exact", t) for t in SLASH]
+             + [("star", t) for t in STAR])
+    while len(atoms) % 3:
+        atoms.append(("term", "Red"))
+    n_exh = 0
+    for si, text in enumerate(sorted(FORMS)):
+        for k in range(0, len(atoms), 3):
+            ann = [("T", text)] if (si + k // 3) % 2 == 0 else [("G", [("T", text)])]
+            cases.append(make_case(rng, fixed={"ann": ann, "shuf": ann, "A": atoms[k], "B": atoms[k + 1],
+                                               "C": atoms[k + 2]}))
+            n_exh += 1
     # exhaustive small layer: every atom x every single-tag / two-tag annotation is covered by volume; plus random
     for _ in range(n_cases):
         cases.append(make_case(rng))
@@ -700,13 +768,15 @@ def run(tier, seed, res, model_ok=True, proof_ok=True):
     return {
         "evaluations": len(cases) * len(cases[0]["queries"]) * 2 + len(soup),
         "distinct_nontrivial": len(nontrivial),
-        "rule": "corpus (refuted witnesses, parser regressions) + random annotations (depth 0-4 over 16 spellings of 9 "
-                "HED 8.3.0 tags) x query triples A,B,C generated from the grammar (depth 0-3, the combined queries "
+        "rule": "corpus (refuted witnesses, parser regressions, value-spelled-like-a-term cases) + random annotations "
+                "(depth 0-4 over 37 spellings of 12 HED 8.3.0 tags incl. values/extensions spelled like schema terms) x query triples A,B,C generated from the grammar (depth 0-3, the combined queries "
                 "reach depth 5), each evaluated on the annotation and on a random sibling reordering; + token soup and "
                 "near-valid (one token deleted/duplicated/replaced) query texts for the compile clause; non-trivial = "
                 "distinct (annotation, query) with a nested annotation and a compound query",
         "samples": [{"annotation": cases[i]["ann"], "query": cases[i]["queries"]["A&&B"]} for i in (0, 1, 2)] + soup[40:43],
         "exhaustive": False,
+        "exhaustive_layer": f"{len(FORMS)} tag spellings x {len(atoms)} atomic queries (all three term modes), "
+                            f"{n_exh} cases",
         "disagreements_checked": disagreements,
         "correspondence_cases": pairs + (len(soup) if model_ok else 0),
         "oracle_failures": stats["oracle_failures"],
